@@ -33,6 +33,7 @@ func runReaderProps(r *Run, prop string) {
 		bigRegularBlock(r)
 		bigArrayBlocks(r)
 		c03NamedTargets(r)
+		c03SlotReuse(r)
 	} else {
 		c04Aliases(r)
 		c04WrapperSkips(r)
